@@ -229,21 +229,37 @@ def _hull_shapes(tier):
         out += [dict(n=5, order=[0, 1, 2, 3, 4]), dict(n=5, order=[3, 1, 4, 0, 2]), dict(n=5, order=[4, 3, 2, 1, 0])]
     else:
         out += [dict(n=5, order=[3, 1, 4, 0, 2])]
+    # points sharing an abscissa (ties[i]: q_i.x == q_{i+1}.x, q_i.y < q_{i+1}.y), handed over upper point first
+    out += [dict(n=4, order=[1, 0, 3, 2], ties=[0, 2]), dict(n=4, order=[3, 2, 1, 0], ties=[0]), dict(n=5, order=[2, 1, 4, 0, 3], ties=[1, 3]),
+            dict(n=4, order=[0, 2, 1, 3], ties=[1]),
+            # three points on one vertical line (the middle one is not a hull vertex), handed over middle / top first
+            dict(n=4, order=[1, 0, 2, 3], ties=[0, 1]), dict(n=4, order=[3, 2, 1, 0], ties=[1, 2]),
+            dict(n=5, order=[2, 4, 1, 3, 0], ties=[1, 2])]
     return out
 
 
 @scenario('C20', fns=['linalg.convex_hull'], quick=lambda: _hull_shapes('quick'), thorough=lambda: _hull_shapes('thorough'))
-def convex_hull(ctx, n, order):
-    """requires: n points in general position - pairwise different abscissae (q_0.x < q_1.x < ...), no three collinear -
-                 handed to the function in the stated order (`order` permutes the x-sorted points)
+def convex_hull(ctx, n, order, ties=()):
+    """requires: n points, lexicographically sorted q_0 < q_1 < ... (different abscissae except the pairs in `ties`, which
+                 share x and differ in y), no three collinear,
+                 handed to the function in the stated order (`order` permutes the sorted points)
        ensures : the hull is a list of input points without repetition, at least 3 of them, in counter-clockwise order
                  (every consecutive triple turns left) and every input point is on or to the left of every hull edge;
                  the input list is not reordered"""
     la = ctx.geomdl('linalg')
     Q = _pts(ctx, 'q', n)
-    for a, b in zip(Q, Q[1:]):
-        ctx.assume(ctx.lt(a[0], b[0]))
+    for i in ties:
+        Q[i + 1] = [Q[i][0], Q[i + 1][1]]
+        ctx.assume(ctx.lt(Q[i][1], Q[i + 1][1]))
+    for i, (a, b) in enumerate(zip(Q, Q[1:])):
+        if i not in ties:
+            ctx.assume(ctx.lt(a[0], b[0]))
+    chain = {}                      # points of one vertical line
+    for i in range(n):
+        chain[i] = chain[i - 1] if (i - 1) in ties else i
     for i, j, k in itertools.combinations(range(n), 3):
+        if chain[i] == chain[j] == chain[k]:
+            continue                # collinear by construction
         ctx.assume(ctx.ne(area2(Q[i], Q[j], Q[k]), 0))
     pts = [Q[i] for i in order]
     arg = list(pts)
